@@ -337,6 +337,10 @@ func (n *BaseNode) ReplaceChild(self, v1, insertee Node) {
 
 // InsertAfter implements Node.InsertAfter .
 func (n *BaseNode) InsertAfter(self, v1, insertee Node) {
+	if v1 == nil || v1.Parent() != self {
+		n.AppendChild(self, insertee)
+		return
+	}
 	n.InsertBefore(self, v1.NextSibling(), insertee)
 }
 
